@@ -50,6 +50,7 @@ type State struct {
 	held    map[string]bool // ghost: mutexes held (term -> bool)
 	ghost   map[string]string
 	depth   int
+	defers  []*ssa.Defer // deferred calls of the top frame registered on this path
 }
 
 func (s *State) clone() *State {
@@ -82,6 +83,7 @@ func (s *State) clone() *State {
 	n.decls = append([]string(nil), s.decls...)
 	n.tracked = append([]tracked(nil), s.tracked...)
 	n.trace = append([]string(nil), s.trace...)
+	n.defers = append([]*ssa.Defer(nil), s.defers...)
 	return n
 }
 
@@ -139,6 +141,7 @@ type effSpec struct {
 	key      string
 	requires []effClause
 	assumes  []effClause
+	defines  []effClause
 	ensures  []effClause
 	xensures []effClause
 	modifies []effClause
